@@ -30,6 +30,9 @@ type c21Case struct {
 }
 
 func c21Gen(t *rapid.T) c21Case {
+	if rapid.IntRange(0, 1).Draw(t, "family") == 0 {
+		return c21GenChains(t)
+	}
 	c := c21Case{
 		G:        genEG(t, egGenOpts{MaxNT: 5, Terms: 6, NodePct: 70, Lists: true, MaxDepth: 2, NestedNode: true}),
 		Space:    rapid.Bool().Draw(t, "space"),
@@ -332,7 +335,7 @@ func TestC21(t *testing.T) {
 		ID:        "C21",
 		Rule:      "C02 grammars (annotations at nonterminal, alternative, nested-choice, optional and list-element level) with eventFields+eventAST, random `name=` aliases on references/groups/lists/optionals, nonterminals turned into %interface categories (every alternative annotated), optional fileNode wrapper, optional skipped space with fixWhitespace and an injected comment token; grammars the compiler rejects (conflicts, 'must produce exactly one node', overlapping fields, ...) are outside the domain and counted. 40 derived sentences per grammar are parsed with the generated ast.Parse; for every node of the tree every accessor of its typed wrapper is called by reflection. Checked: no panic; a single-value (required) accessor returns a valid node; the ok flag of optional accessors equals IsValid(); every returned node has the declared struct type or implements the declared category; every child whose type is not an injected token is returned by at least one accessor of its parent. Non-trivial: a grammar with >= 3 accessor calls including a list, a present optional or a category accessor.",
 		Assume:    []string{"without fileNode a sentence whose events do not form a single root is rejected by the builder ('exactly one root node is expected'); counted, not reported"},
-		Quick:     48, Thorough: 960, BatchSize: 48,
+		Quick:     128, Thorough: 1920, BatchSize: 64,
 		Gen:       c21Gen,
 		Unit: func(c c21Case, name string) (batch.Unit, bool) {
 			return batch.Unit{Name: name, TM: c.render(name), Adapter: typedAdapter, RunPkg: "ast"}, true
